@@ -22,6 +22,28 @@ pub struct GenOpts {
 
 const BASE_DAY: i64 = 1_709_510_400; // 2024-03-04T00:00:00
 
+/// the README's examples also use unpadded fields ("2023-7-24T6:00:00"); the short form without
+/// seconds ("2009-4-15T12:10") is what the time library documents
+fn fmt_time_variant(t: i64, variant: u8) -> String {
+    let full = fmt_time(t); // YYYY-MM-DDTHH:MM:SS
+    if variant == 0 {
+        return full;
+    }
+    let (date, time) = full.split_once('T').unwrap();
+    let d: Vec<i64> = date.split('-').map(|x| x.parse().unwrap()).collect();
+    let h: Vec<i64> = time.split(':').map(|x| x.parse().unwrap()).collect();
+    match variant {
+        1 => format!("{}-{}-{}T{}:{:02}:{:02}", d[0], d[1], d[2], h[0], h[1], h[2]),
+        _ => {
+            if h[2] == 0 {
+                format!("{}-{}-{}T{}:{:02}", d[0], d[1], d[2], h[0], h[1])
+            } else {
+                full
+            }
+        }
+    }
+}
+
 fn opt_field(rng: &mut Rng, m: &mut Map<String, Value>, key: &str, v: Option<u64>) {
     match v {
         Some(x) => {
@@ -75,6 +97,10 @@ pub fn gen_instance(rng: &mut Rng, o: &GenOpts) -> (Value, Value) {
     };
     let demand_max = if large { *rng.pick(&[1u64, 2, 2]) } else if o.risky { 4 } else { *rng.pick(&[1u64, 2, 2, 3, 4]) };
     let two_days = rng.chance(1, 8);
+    let three_days = two_days && rng.chance(1, 4);
+    let time_variant: u8 = *rng.pick(&[0u8, 0, 0, 0, 0, 0, 1, 2]);
+    // odd seconds instead of whole minutes (fine grid only)
+    let odd_seconds = rng.chance(1, 10);
     let type_without_routes = n_types >= 2 && rng.chance(1, 12);
 
     // ---- vehicle types ------------------------------------------------------------------
@@ -202,7 +228,8 @@ pub fn gen_instance(rng: &mut Rng, o: &GenOpts) -> (Value, Value) {
         let mut segs = vec![];
         for s in 0..n_seg {
             let mut to = rng.usize(n_locs);
-            if to == cur {
+            if to == cur && !rng.chance(1, 6) {
+                // (a round trip that ends where it starts is valid, but kept rare)
                 to = (to + 1) % n_locs;
             }
             let dur = if grid >= 300 {
@@ -234,6 +261,10 @@ pub fn gen_instance(rng: &mut Rng, o: &GenOpts) -> (Value, Value) {
             cur = to;
         }
         let id = format!("{}r{}", pfx, r);
+        if segs_json.len() >= 2 && rng.chance(1, 5) {
+            // the list order of a route's segments carries no meaning (`order` does)
+            segs_json.reverse();
+        }
         routes_json.push(json!({"id": id, "vehicleType": format!("{}vt{}", pfx, vt), "segments": segs_json}));
         routes.push(Route { id, vt, segs });
     }
@@ -242,7 +273,7 @@ pub fn gen_instance(rng: &mut Rng, o: &GenOpts) -> (Value, Value) {
     let mut departures = vec![];
     let mut n_segments = 0usize;
     let n_dep = if large { rng.range(6, 14) as usize } else { rng.range(1, 7) as usize };
-    let day_span: i64 = if two_days { 40 * 3600 } else { 16 * 3600 };
+    let day_span: i64 = if three_days { 62 * 3600 } else if two_days { 40 * 3600 } else { 16 * 3600 };
     let mut earliest = i64::MAX;
     let mut latest = i64::MIN;
     for d in 0..n_dep {
@@ -251,6 +282,9 @@ pub fn gen_instance(rng: &mut Rng, o: &GenOpts) -> (Value, Value) {
             continue;
         }
         let mut t = BASE_DAY + 4 * 3600 + rng.range(0, day_span / grid) * grid;
+        if odd_seconds && grid == 60 {
+            t += rng.range(0, 59);
+        }
         let mut segs = vec![];
         // a departure serves the whole route or a contiguous part of it (short-turn service)
         let (from_seg, to_seg) = if r.segs.len() >= 2 && rng.chance(1, 3) {
@@ -287,7 +321,7 @@ pub fn gen_instance(rng: &mut Rng, o: &GenOpts) -> (Value, Value) {
             segs.push(json!({
                 "id": format!("{}d{}s{}", pfx, d, k),
                 "routeSegment": s.id,
-                "departure": fmt_time(t),
+                "departure": fmt_time_variant(t, time_variant),
                 "passengers": passengers,
                 "seated": seated,
             }));
@@ -313,7 +347,7 @@ pub fn gen_instance(rng: &mut Rng, o: &GenOpts) -> (Value, Value) {
             segs.push(json!({
                 "id": format!("{}d0s{}", pfx, k),
                 "routeSegment": s.id,
-                "departure": fmt_time(t),
+                "departure": fmt_time_variant(t, time_variant),
                 "passengers": 10,
                 "seated": 5,
             }));
@@ -337,8 +371,8 @@ pub fn gen_instance(rng: &mut Rng, o: &GenOpts) -> (Value, Value) {
             slots.push(json!({
                 "id": format!("{}ms{}", pfx, m),
                 "location": loc_ids[rng.usize(n_locs)],
-                "start": fmt_time(start),
-                "end": fmt_time(start + dur),
+                "start": fmt_time_variant(start, time_variant),
+                "end": fmt_time_variant(start + dur, time_variant),
                 "trackCount": *rng.pick(&[1u64, 2, 2, 3]),
             }));
             continue;
@@ -353,8 +387,8 @@ pub fn gen_instance(rng: &mut Rng, o: &GenOpts) -> (Value, Value) {
         slots.push(json!({
             "id": format!("{}ms{}", pfx, m),
             "location": loc_ids[rng.usize(n_locs)],
-            "start": fmt_time(start),
-            "end": fmt_time(start + dur),
+            "start": fmt_time_variant(start, time_variant),
+            "end": fmt_time_variant(start + dur, time_variant),
             "trackCount": *rng.pick(&[1u64, 1, 2, 2, 3]),
         }));
     }
